@@ -230,6 +230,7 @@ VARIANTS = [
     V("leftover partition of a tree level aliased to its first block", ("C09", "C03"), "R-WHOLEPART", "dask_array_ops.py", '        free = {i: j[0] for (i, j) in enumerate(p) if len(j) == 1 and i not in split_every}', '        free = {i: j[0] for (i, j) in enumerate(p) if i not in split_every}', must_mention="first block"),
     V("maybe_promote treats floats like integers (float32 widened)", ("C11",), "R-PROMOTEIDEM", "xrdtypes.py", '    if np.issubdtype(dtype, np.floating):\n        fill_value = np.nan\n    elif np.issubdtype(dtype, np.timedelta64):\n        # See https://github.com/numpy/numpy/issues/10685\n        # np.timedelta64 is a subclass of np.integer\n        # Check np.timedelta64 before np.integer\n        fill_value = np.timedelta64("NaT")\n    elif np.issubdtype(dtype, np.integer):\n', '    if np.issubdtype(dtype, np.timedelta64):\n        fill_value = np.timedelta64("NaT")\n    elif np.issubdtype(dtype, np.integer) or np.issubdtype(dtype, np.floating):\n', must_mention="float32"),
     V("twin: maybe_promote tests floats after the integers", ("C11",), "", "xrdtypes.py", '    if np.issubdtype(dtype, np.floating):\n        fill_value = np.nan\n    elif np.issubdtype(dtype, np.timedelta64):\n        # See https://github.com/numpy/numpy/issues/10685\n        # np.timedelta64 is a subclass of np.integer\n        # Check np.timedelta64 before np.integer\n        fill_value = np.timedelta64("NaT")\n    elif np.issubdtype(dtype, np.integer):\n        dtype = np.float32 if dtype.itemsize <= 2 else np.float64\n        fill_value = np.nan\n', '    if np.issubdtype(dtype, np.timedelta64):\n        fill_value = np.timedelta64("NaT")\n    elif np.issubdtype(dtype, np.integer):\n        dtype = np.float32 if dtype.itemsize <= 2 else np.float64\n        fill_value = np.nan\n    elif np.issubdtype(dtype, np.floating):\n        fill_value = np.nan\n', expect="silent"),
+    V("xarray wrapper drops min_count for non-skipping reductions", ("C05",), "R-PASSTHROUGH[options]", "xarray.py", '                func = f"nan{func}"\n\n        result, *groups = groupby_reduce(array, *by, func=func, **kwargs)', '                func = f"nan{func}"\n        elif kwargs.get("min_count") is not None:\n            kwargs["min_count"] = None\n\n        result, *groups = groupby_reduce(array, *by, func=func, **kwargs)', must_mention="min_count"),
     V("dtype promotion memoised with an untyped key", ("C14",), "R-MEMO", "xrdtypes.py", '        dtype = np.result_type(dtype, fill_value)\n    return dtype\n',
       '        dtype = _promote_for_fill_value(dtype, fill_value)\n    return dtype\n\n\n@functools.lru_cache\ndef _promote_for_fill_value(dtype: np.dtype, fill_value) -> np.dtype:\n    return np.result_type(dtype, fill_value)\n', must_mention="typed"),
     V("twin: dtype promotion memoised with typed=True", ("C14",), "", "xrdtypes.py", '        dtype = np.result_type(dtype, fill_value)\n    return dtype\n',
